@@ -136,12 +136,16 @@ func main() {
 	var ce *cer
 	var xn *xnet
 	valSeen := map[int]bool{} // validators whose `val` op was executed (rec / sig refer to it on the model side)
+	lastProto := false         // did the last cluster-changing op produce a new generation
+	var gens []*genr           // generations of the cluster: [0] the ceremony's, then one per cluster-changing op
 
 	exec := func(op string) {
 		f := strings.Fields(op)
 		if f[0] == "run" {
 			xn.close()
 			xn = nil
+			ce.cleanup()
+			gens = nil
 			valSeen = map[int]bool{}
 			c := parseCfg(f)
 			run.Begin(op)
@@ -185,7 +189,133 @@ func main() {
 			panic("op without successful ceremony: " + op)
 		}
 		n, t := ce.c.n, ce.c.t
+		if gens == nil {
+			g0 := ce.gen0()
+			g0.valSeen = valSeen
+			gens = []*genr{g0}
+		}
+		cur := gens[len(gens)-1]
 		switch f[0] {
+		case "reshare", "addop", "rmop", "replop":
+			o := parseProtoOp(f)
+			run.Begin(op)
+			run.Count(o.kind)
+			lastProto = false
+			refused := protoRefused(ce.c.ver, cur, o)
+			ng, errs := ce.proto(cur, o)
+			if ng == nil {
+				if !refused {
+					sig := "dkgrun:protocol_failed_error"
+					if timeoutClass(errs) {
+						sig = "dkgrun:protocol_failed_timeout"
+					}
+					run.Violate(sig, fmt.Sprintf("%s on generation %d (n=%d t=%d): %s", op, cur.idx, cur.n, cur.t, errsStr(errs)))
+				}
+				run.Count(o.kind + ":err")
+				if !verAtLeast(ce.c.ver, 7) {
+					run.Count("proto:refused_for_v1.6_lock")
+				}
+				run.Op(op, "err")
+				return
+			}
+			if refused {
+				run.Violate("dkgrun:bad_request_not_refused", op)
+			}
+			ce.protoMonitors(run, cur, ng, o)
+			gens = append(gens, ng)
+			lastProto = true
+			run.Case(fmt.Sprintf("%s:%d:%d:%d:%d:%v:%v", o.kind, cur.n, cur.t, ng.n, ng.t, o.ids, o.part))
+			run.Op(op, "ok")
+		case "nval", "nrec", "nsig", "part":
+			if cur.idx == 0 {
+				run.Op(op, "bad-op")
+				return
+			}
+			old := gens[len(gens)-2]
+			k, _ := strconv.Atoi(f[1])
+			switch f[0] {
+			case "nval":
+				if !old.valSeen[k] { // an op list cut by the minimiser: the model has no previous shares either
+					run.Op(op, "bad-op")
+					return
+				}
+				sks, out := ce.nvalLine(run, old, cur, k)
+				cur.valSeen[k] = true
+				run.Count("nval")
+				run.Op(fmt.Sprintf("nval %d %s", k, sks), out)
+			case "nrec":
+				if !cur.valSeen[k] {
+					run.Op(op, "bad-op")
+					return
+				}
+				ids := parseIDs(f[2])
+				sub := map[int]tbls.PrivateKey{}
+				pub := map[int]tbls.PublicKey{}
+				for _, j := range ids {
+					sub[j] = cur.sk[j-1][k]
+					var p tbls.PublicKey
+					copy(p[:], cur.locks[j%cur.n].Validators[k].PubShares[j-1]) // as written by another node
+					pub[j] = p
+				}
+				rec, err := tbls.RecoverSecret(sub, uint(cur.n), uint(cur.t))
+				if err != nil {
+					run.Op(op, "err")
+					return
+				}
+				rpk, err := tbls.RecoverPubkey(pub)
+				okR := err == nil && rpk == ce.G[k]
+				if len(sub) >= cur.t {
+					if !okR {
+						run.Violate("dkgrun:pubshares_do_not_reconstruct_group_key", fmt.Sprintf("generation %d validator %d: the new lock's public shares %v do not reconstruct the group key of the ceremony", cur.idx, k, ids))
+					}
+					if rec != ce.x[k] {
+						run.Violate("dkgrun:subset_recovers_other_secret", fmt.Sprintf("generation %d validator %d ids=%v", cur.idx, k, ids))
+					}
+					run.Case(fmt.Sprintf("nrec:%d:%d:%s", cur.n, cur.t, f[2]))
+				} else if rec == ce.x[k] || okR {
+					run.Violate("dkgrun:below_threshold_recovers", fmt.Sprintf("generation %d validator %d: %d < t=%d new shares %v reconstruct the group key", cur.idx, k, len(sub), cur.t, ids))
+				}
+				run.Count("nrec")
+				run.Op(op, fmt.Sprintf("%x rpk=%s", rec[:], b01(okR)))
+			case "nsig":
+				if !cur.valSeen[k] {
+					run.Op(op, "bad-op")
+					return
+				}
+				ids := parseIDs(f[2])
+				msg := unhex(f[3])
+				parts := map[int]tbls.Signature{}
+				for _, j := range ids {
+					s, err := tbls.Sign(cur.sk[j-1][k], msg)
+					hx.Must(err)
+					parts[j] = s
+				}
+				sig, err := tbls.ThresholdAggregate(parts)
+				if err != nil {
+					run.Op(op, "err")
+					return
+				}
+				ver := tbls.Verify(ce.G[k], msg, sig) == nil // under the group key of the ceremony
+				full, err := tbls.Sign(ce.x[k], msg)
+				agg := err == nil && full == sig
+				if len(parts) >= cur.t {
+					if !ver {
+						run.Violate("dkgrun:threshold_signature_rejected", fmt.Sprintf("generation %d validator %d ids=%v: the aggregate of the new shares' partial signatures does not verify under the group key of the ceremony", cur.idx, k, ids))
+					}
+					run.Case(fmt.Sprintf("nsig:%d:%d:%s", cur.n, cur.t, f[2]))
+				} else if ver {
+					run.Violate("dkgrun:below_threshold_recovers", fmt.Sprintf("generation %d validator %d: %d < t=%d partial signatures %v combine into a valid group signature", cur.idx, k, len(parts), cur.t, ids))
+				}
+				run.Count("nsig")
+				run.Op(op, fmt.Sprintf("agg=%s ver=%s", b01(agg), b01(ver)))
+			case "part":
+				if k < 0 || k >= cur.n {
+					run.Op(op, "bad-op")
+					return
+				}
+				run.Count("part")
+				run.Op(op, ce.partStr(cur, k))
+			}
 		case "val":
 			k, _ := strconv.Atoi(f[1])
 			var sks []string
@@ -333,8 +463,10 @@ func main() {
 			exec(op)
 		}
 		xn.close()
+		ce.cleanup()
 		return
 	}
-	gen(a, run, exec, func() *cer { return ce })
+	gen(a, run, exec, func() *cer { return ce }, func() bool { return lastProto })
 	xn.close()
+	ce.cleanup()
 }
